@@ -1,7 +1,7 @@
 SPECIFICATION Spec
 CONSTANTS ChainUpdatesCtx = TRUE
  ChainMode = "none"
-INVARIANT IntermediateInvisible
+PROPERTY IntermediateInvisible
 INVARIANT DataOfCausingEvent
 INVARIANT OrderOfActions
 INVARIANT ReturnIffAccepted
